@@ -30,9 +30,19 @@ EXHAUSTIVE = {}
 NUC = "ACGT"
 
 
+GC = [[-1, -1, -1, -1], [4, -1, -1, 7], [8, -1, -1, 11], [-1, -1, -1, -1], [-1, 1, 2, -1], [-1, -1, -1, -1], [-1, -1, -1, -1],
+      [-1, 13, 14, -1], [-1, 1, 2, -1], [-1, -1, -1, -1], [-1, -1, -1, -1], [-1, 13, 14, -1], [-1, -1, -1, -1], [4, -1, -1, 7],
+      [8, -1, -1, 11], [-1, -1, -1, -1]]
+
+
 def payloads(rng, tier):
     n = {"quick": 1500, "thorough": 25000, "search": 1500}[tier]
     kmax = {"quick": 3, "thorough": 4, "search": 2}[tier]
+    # strands with many independent ambiguous errors: the number of candidate combinations is astronomically large
+    # (2^m), the heap limit must stop the enumeration
+    for m in ([3, 20, 62, 63, 64, 65] if tier != "search" else [3, 63]):
+        yield "repair", {"k": 2, "rows": GC, "v0": 1, "s": "TCTCTATCTCTC" * m, "vt": "none", "indel": True,
+                         "heap": 1e3, "kind": "ambiguous"}
     for _ in range(n):
         if rng.random() < 0.6:
             k, t, rows = rc.generated_graph(rng, kmax)
